@@ -1,5 +1,7 @@
 /- C11 invariants, part 7: publication, continued -/
 import SemaModel.C11.Inv6
+set_option linter.unusedSimpArgs false
+set_option linter.unusedVariables false
 namespace Sema.C11
 
 set_option maxHeartbeats 1000000 in
